@@ -99,7 +99,7 @@ impl Prop for C02 {
             return None;
         }
         let root = syn::parse(&c.src);
-        env.known.excluded("C02", &c.src, &root)
+        env.known.excluded("C02", &c.src, &root, Some(&c.cfg))
     }
 
     fn check(&self, c: &SrcCase, env: &Env, st: &mut Stats) -> Verdict {
